@@ -54,10 +54,10 @@ func judgeDangling(run *vc.Run, c *danglingCase, explain bool) {
 	switch c.base.Status {
 	case "accepted":
 	case "panic":
-		site, _ := chaos.PanicSite(c.base.Stack, chaos.Repo())
+		key, _ := chaos.PanicKey(c.base.Stack, chaos.Repo(), c.base.Errors, topDSLFunc(c.base.Stack))
 		wb := w
 		wb.Status, wb.Stack, wb.ErrText, wb.MutantDSL = "panic(base)", chaos.HeadS(c.base.Stack, 6000), c.base.Errors, ""
-		run.Violation("panic:"+site+":"+topDSLFunc(c.base.Stack), "a valid generated design panics: "+chaos.HeadS(c.base.Errors, 200), wb)
+		run.Violation(key, "a valid generated design panics: "+chaos.HeadS(c.base.Errors, 200), wb)
 		return
 	default:
 		run.Inconclusive("dangling: goa does not accept the unmutated spec (" + c.base.Status + ")")
@@ -90,8 +90,8 @@ func judgeDangling(run *vc.Run, c *danglingCase, explain bool) {
 			fmt.Sprintf("design accepted although %s refers to %q which does not exist", c.mut.Site, c.mut.Name), w)
 		say("oracle: ACCEPTED although %q does not exist: violation", c.mut.Name)
 	case "panic":
-		site, _ := chaos.PanicSite(c.mutant.Stack, chaos.Repo())
-		run.Violation("panic:"+site+":"+topDSLFunc(c.mutant.Stack), "dangling reference ("+c.mut.Class+") panics: "+chaos.HeadS(c.mutant.Errors, 200), w)
+		key, site := chaos.PanicKey(c.mutant.Stack, chaos.Repo(), c.mutant.Errors, topDSLFunc(c.mutant.Stack))
+		run.Violation(key, "dangling reference ("+c.mut.Class+") panics at "+site+": "+chaos.HeadS(c.mutant.Errors, 200), w)
 		say("oracle: panic at %s: violation", site)
 	case "crash":
 		if strings.Contains(c.mutant.Stack, "stack overflow") || strings.Contains(c.mutant.Stack, "goroutine stack exceeds") {
